@@ -20,7 +20,7 @@ from rv.readers.reader import read_sunvox_file
 
 PROPERTY = "C14"
 LEVEL = "exploration"
-BUDGET_S = {"quick": 60, "thorough": 900}
+BUDGET_S = {"quick": 60, "thorough": 3600}
 RULE = (
     "one evaluation = one seeded history of 5-40 ownership operations over 2-3 projects and a pool of free modules / "
     "patterns (attach_module, new_module, += with modules, patterns and lists, attach twice, attach an object owned by "
@@ -513,7 +513,7 @@ def generate(seed, i, tier="quick"):
 
 
 def plan(tier, seed):
-    n = 12000 if tier == "quick" else 250000
+    n = 12000 if tier == "quick" else 600000
     per = 300
     return [{"kind": "seeded", "seed": seed, "first": i, "count": min(per, n - i), "tier": tier} for i in range(0, n, per)]
 
